@@ -270,6 +270,9 @@ Step ==
                         ELSE IF ~expectErr /\ e.result # "ok" /\ ~mm.blocked
                              THEN {V("C19", l, "run_on returned an error on a fault-free conformant conversation"),
                                    V("C01", l, "a well-formed command stream was not delivered to the end: run_on gave up (" \o ToString(Len(mm.cmds) - mm.di) \o " commands never dispatched)")}
+                                  \cup (IF \E i \in (mm.di + 1)..Len(mm.cmds) : NeedsCb(mm.cmds[i].p)
+                                        THEN {V("C02", l, "a command never reached its callback: run_on gave up on a conformant conversation"),
+                                              V("C12", l, "a command that had arrived completely was never served")} ELSE {})
                                   \* long data for a live statement that no execution ever received
                                   \cup (IF mm.long # << >> \/ (\E i \in (mm.di + 1)..Len(mm.cmds) : First(mm.cmds[i].p) = 24)
                                         THEN {V("C17", l, "long data sent for a prepared statement was never delivered: the connection ended with an error on a conformant conversation"),
